@@ -306,6 +306,40 @@ def check_create(_item):
                        witness={"family": "call", "oracle": "param_equivalence", "args": ["*"]})]
 
 
+def check_should(_item):
+    """param/should: Parameterizer.should_parameterize(value) is False for every enum member (also one that is a str)
+    and for the lone '*', True otherwise - compared with the specification WITHOUT assuming that the kinds str and Enum
+    exclude each other (str-mixin enums are both)"""
+    from .render import eval_spec
+    r = repo()
+    ci = r.cls("terms.Parameterizer")
+    fi = ci.methods["should_parameterize"]
+    snap = {}
+    run = run_function(fi, ci, overrides={"value": "value"}, pre=lambda ex, s_, p_: snap.update(st=ex.st.snapshot()))
+    name = fi.short
+    if run.error:
+        return [Obligation(PROP, f"{name}|param/should", "param/should", fi.short, UNSUPPORTED, reason=run.error)]
+    ex = run.ex
+    fs = []
+    for o in run.outcomes:
+        if o.status != "return":
+            return [Obligation(PROP, f"{name}|param/should", "param/should", fi.short, REFUTED,
+                               detail="should_parameterize returns a boolean on every path",
+                               reason=f"a path ends with {o.status} {o.value!r}")]
+        ex.st = o.state
+        fs.append(z3.And(*(list(o.state.pc) + [ex.truth(o.value)])))
+    got = z3.Or(fs)
+    want = ex.truth(eval_spec(ex, snap["st"], "parameters", "should_parameterize", [run.self_obj, run.params["value"]],
+                              in_module="pypika_tortoise.terms"))
+    plain = z3.Solver()
+    plain.add(z3.Xor(got, want))
+    ok = plain.check() == z3.unsat
+    return [Obligation(PROP, f"{name}|param/should", "param/should", fi.short, PROVED if ok else REFUTED,
+                       detail=f"should_parameterize(value) <=> {z3.simplify(want)} (kinds not assumed exclusive)",
+                       reason="" if ok else f"code: {z3.simplify(got)}; differs e.g. on {plain.model()}"[:500],
+                       witness={"family": "call", "oracle": "should_parameterize", "args": []})]
+
+
 def check_plain(item):
     """param/plain-data: no builder or constructor wraps a query-builder object (Node) in a constant wrapper -
     such a value would be put into the parameter list while the SQL shows a placeholder"""
@@ -334,6 +368,8 @@ def _dispatch(item):
         return check_leaf(item)
     if item[0] == "$create":
         return check_create(item)
+    if item[0] == "$should":
+        return check_should(item)
     if item[0] in ("$plain-builder", "$plain-init"):
         return check_plain(item)
     return check_one(item)
@@ -344,7 +380,7 @@ def generate(tier="quick"):
     t = render_targets(r)
     from . import c01
     from .base import classes_using
-    extra = [("$static", None, []), ("$create", None, [])]
+    extra = [("$static", None, []), ("$create", None, []), ("$should", None, [])]
     for q in ("terms.ValueWrapper.get_sql", "terms.Array.get_sql"):
         f = r.func(q)
         for c in classes_using(r, f):
